@@ -254,7 +254,7 @@ pub mod t {
 
         /// `get(i)` and the first two items of `iter_from(i)`, for a symbolic `i`.
         #[kani::proof]
-        #[kani::unwind(70)]
+        #[kani::unwind(50)]
         #[kani::stub(f64::log2, log2_tab)]
         pub fn get_iter_from_any_state() {
             let (ef, high) = any_state();
